@@ -5,34 +5,45 @@ Import ListNotations.
 Require Import KV.C12.Model KV.C12.Proofs.
 Open Scope N_scope.
 
-(* C12_password_roundtrip_partial / C12_verify_stable_partial: an SSHA512 and an ARGON2ID password *)
+(* passwords of several KDFs, including CRYPT_SHA512, read back as themselves *)
 Example C12_witness_password :
   let k1 := K_SSHA512 [1; 2; 3] [200; 201; 202; 203] in
   let k2 := K_ARGON2ID 65536 2 1 19 [9; 9] [7; 7; 7] in
-  ktag k1 <> TAG_CRYPT_SHA512 /\ ktag k2 <> TAG_CRYPT_SHA512 /\
-  reload k1 = Some k1 /\ reload k2 = Some k2.
-Proof. vm_compute. repeat split; discriminate. Qed.
-
-(* the refutation witness: "$6$" comes back under the CRYPT_SHA256 constructor and, with
-   primitives that tell the two crypt flavours apart, verifies differently *)
-Example C12_witness_refuted_password :
-  reload (K_CRYPT_SHA512 [36; 54; 36; 97]) = Some (K_CRYPT_SHA256 [36; 54; 36; 97]) /\
-  verify toy_oracle (K_CRYPT_SHA512 [36; 54; 36; 97]) [112; 119] = Some true /\
-  verify toy_oracle (K_CRYPT_SHA256 [36; 54; 36; 97]) [112; 119] = Some false.
+  let k3 := K_CRYPT_SHA512 [36; 54; 36; 97] in
+  reload k1 = Some k1 /\ reload k2 = Some k2 /\ reload k3 = Some k3 /\
+  verify toy_oracle k3 [112; 119] = Some true.
 Proof. vm_compute. repeat split. Qed.
 
-(* C12_load_store_partial *)
-Example C12_witness_load_store :
-  dtag (D_PBKDF2_SHA1 10000 [1] [2; 3]) <> TAG_CRYPT_SHA512 /\
-  option_map db_of_kdf (kdf_of_db (D_CRYPT_SHA512 [36])) = Some (D_CRYPT_SHA256 [36]).
-Proof. vm_compute. split; [discriminate | reflexivity]. Qed.
-
-(* C12_valueset_dispatch_partial and its refutation witness *)
-Example C12_witness_valueset :
-  VK_Credential <> VK_JwsKeyRs256 /\ VK_Credential <> VK_Other /\
-  vs_reload VK_Credential = Some VK_Credential /\ vs_reload VK_Session = Some VK_Session /\
-  vs_reload VK_JwsKeyRs256 = None /\ vs_reload_with dispatch_fixed VK_JwsKeyRs256 = Some VK_JwsKeyRs256.
+(* the pre-fix witness: "$6$" came back under the CRYPT_SHA256 constructor and, with primitives
+   that tell the two crypt flavours apart, verified differently *)
+Example C12_witness_prefix_password :
+  reload_prefix (K_CRYPT_SHA512 [36; 54; 36; 97]) = Some (K_CRYPT_SHA256 [36; 54; 36; 97]) /\
+  verify toy_oracle (K_CRYPT_SHA512 [36; 54; 36; 97]) [112; 119] = Some true /\
+  verify toy_oracle (K_CRYPT_SHA256 [36; 54; 36; 97]) [112; 119] = Some false /\
+  N.of_nat (length [112; 119]) <= PW_MAX_LENGTH_CHECK.
 Proof. vm_compute. repeat split; discriminate. Qed.
+
+Example C12_witness_load_store :
+  option_map db_of_kdf (kdf_of_db (D_CRYPT_SHA512 [36])) = Some (D_CRYPT_SHA512 [36]) /\
+  option_map db_of_kdf (kdf_of_db_prefix (D_CRYPT_SHA512 [36])) = Some (D_CRYPT_SHA256 [36]).
+Proof. vm_compute. split; reflexivity. Qed.
+
+Example C12_witness_valueset :
+  VK_Credential <> VK_Other /\
+  vs_reload VK_Credential = Some VK_Credential /\ vs_reload VK_Session = Some VK_Session /\
+  vs_reload VK_JwsKeyRs256 = Some VK_JwsKeyRs256 /\
+  vs_reload_with dispatch_prefix VK_JwsKeyRs256 = None.
+Proof. vm_compute. repeat split; discriminate. Qed.
+
+(* message expiry: a whole-second time meets the hypothesis of C12_message_roundtrip_partial; a
+   time with a sub-second part is the refutation witness (moves earlier by 0.21 s) *)
+Example C12_witness_message :
+  7283001201000000000 mod NS = 0 /\ msg_time_reload 7283001201000000000 = 7283001201000000000 /\
+  msg_time_reload 7283001201210000000 = 7283001201000000000 /\
+  known (CMsg 7283001201210000000 7283001201000000000) = true /\
+  agree (CMsg 7283001201210000000 7283001201000000000) = true /\
+  pcheck (CMsg 7283001201210000000 7283001201000000000) = false.
+Proof. vm_compute. repeat split. Qed.
 
 (* C12_db_entry_roundtrip: uuid + a credential + an emptied attribute *)
 Definition w_attrs : list aval :=
@@ -66,19 +77,24 @@ Proof. vm_compute. repeat split. Qed.
 
 (* the error branches are reachable: a value that does not load, a missing uuid *)
 Example C12_witness_errors :
-  db_trip (Tomb (1, 1)) [mkaval 0 10 VK_Uuid [] false (Some 10) true; mkaval 4 20 VK_JwsKeyRs256 [] false None false] = EErr /\
+  db_trip (Tomb (1, 1)) [mkaval 0 10 VK_Uuid [] false (Some 10) true; mkaval 4 20 VK_Image [] false None false] = EErr /\
   db_trip (Tomb (1, 1)) [mkaval 4 21 VK_Utf8 [] false (Some 21) false] = EErr /\
-  refresh_trip [4] [] (Live (1, 1) [(4, (2, 1))]) [mkaval 4 20 VK_JwsKeyRs256 [] false None false] = EErr.
+  refresh_trip [4] [] (Live (1, 1) [(4, (2, 1))]) [mkaval 4 20 VK_Image [] false None false] = EErr.
 Proof. vm_compute. repeat split. Qed.
 
-(* agree / pcheck / known on hand-written cases of each kind *)
+(* agree / pcheck / known on hand-written cases: a regression of either repaired defect is a
+   disagreement AND an unexcused property failure *)
 Example C12_witness_cases :
-  agree (CPw 14 (D_CRYPT_SHA512 [36]) 13 (D_CRYPT_SHA256 [36]) false [1] [0]) = true /\
+  agree (CPw 14 (D_CRYPT_SHA512 [36]) 13 (D_CRYPT_SHA256 [36]) false [1] [0]) = false /\
   pcheck (CPw 14 (D_CRYPT_SHA512 [36]) 13 (D_CRYPT_SHA256 [36]) false [1] [0]) = false /\
-  known (CPw 14 (D_CRYPT_SHA512 [36]) 13 (D_CRYPT_SHA256 [36]) false [1] [0]) = true /\
-  agree (CVs VK_JwsKeyRs256 [] T_JR None false false false) = true /\
-  known (CVs VK_JwsKeyRs256 [] T_JR None false false false) = true /\
-  agree (CVs VK_Credential [14] T_CR (Some VK_Credential) false false false) = true /\
-  pcheck (CVs VK_Credential [2] T_CR (Some VK_Credential) true true true) = true /\
-  known (CVs VK_Credential [2] T_CR (Some VK_Credential) true true true) = false.
+  known (CPw 14 (D_CRYPT_SHA512 [36]) 13 (D_CRYPT_SHA256 [36]) false [1] [0]) = false /\
+  agree (CPw 14 (D_CRYPT_SHA512 [36]) 14 (D_CRYPT_SHA512 [36]) true [1] [1]) = true /\
+  pcheck (CPw 14 (D_CRYPT_SHA512 [36]) 14 (D_CRYPT_SHA512 [36]) true [1] [1]) = true /\
+  pcheck (CVs VK_JwsKeyRs256 [] T_JR None false false false) = false /\
+  known (CVs VK_JwsKeyRs256 [] T_JR None false false false) = false /\
+  agree (CVs VK_JwsKeyRs256 [] T_JR (Some VK_JwsKeyRs256) true true true) = true /\
+  pcheck (CVs VK_Credential [14] T_CR (Some VK_Credential) true true true) = true /\
+  known (CVs VK_Message [100] T_MS (Some VK_Message) false true true) = true /\
+  agree (CVs VK_Message [100] T_MS (Some VK_Message) false true true) = true /\
+  known (CVs VK_Message [] T_MS (Some VK_Message) false true true) = false.
 Proof. vm_compute. repeat split. Qed.
